@@ -322,6 +322,11 @@ def run_for(prop, tier, wd):
         log(f"[mc] {name}/{tier}: {m['distinct']} distinct, {m['generated']} generated, completed={m['completed']}, "
             f"violations={len(m['violations'])}")
         res.append(m)
+    # inductive arguments for all histories of one right (TLC cross-check always, Apalache in the thorough tier)
+    import inductive
+    for m in inductive.run_for(prop, tier, wd):
+        log(f"[inductive] {m['config']}/{tier}: {len(m['obligations'])} obligations, violations={len(m['violations'])}")
+        res.append(m)
     # behaviours of the model, replayed on the real code
     names = [n for n in FOR_PROP.get(prop, []) if n != "Alias"]
     # (quick: of the first configuration; thorough: of every configuration)
